@@ -1,92 +1,127 @@
 (* C15 — Douglas: masked features inert, valid soft bins, cells given by the number of cut points below,
-   active points as defined.  Statements only; every proof is [exact <lemma of Proofs/Douglas.v>].
-   Model: Model/Douglas.v (bins = _leaf_binning, merge = _merge_leaf, infer = _infer, used_features /
-   init_cuts = _init_params, find_active_points).  Real-number theorems are about the Rops instance. *)
+   active points as defined.  Statements only; every proof is [exact <lemma of Proofs/DouglasGen.v / Douglas.v>].
+   The theorems are about the REGENERATED definitions of Gen/DouglasRules.v (written on every build by
+   translator/tr_douglas.py from the AST of gemclus/tree/douglas.py): gen_leaf_binning = _leaf_binning,
+   gen_merge_leaf = _merge_leaf, gen_infer_row / gen_infer_state = _infer and what it retains,
+   gen_init_params = _init_params, gen_find_active_points = find_active_points.  Proofs/DouglasGen.v proves each
+   of them equal to the hand-written executable model Model/Douglas.v (the one the correspondence runs), for every
+   number system; the real-number theorems are about the Rops instance.
+   Abbreviations (Proofs/DouglasGen.v): gbins T x cuts / gorder = the two results of gen_leaf_binning Rops T x cuts,
+   glogits x cuts = its local variable `logits`, gleaf = the retained leaf memberships of gen_infer_state. *)
 From Coq Require Import Reals List Arith Sorted Permutation Lra.
 From Coquelicot Require Import Coquelicot.
-From GV Require Import Common.Num Common.NumR Model.Forward Model.Douglas Proofs.RSumLib Proofs.Douglas.
+From GV Require Import Common.Num Common.NumR Model.Forward Model.Douglas Gen.DouglasRules.
+From GV Require Import Proofs.RSumLib Proofs.Douglas Proofs.DouglasGen.
 Import ListNotations.
 Open Scope R_scope.
 
-(* _init_params lists exactly the features selected by the mask (all of them without a mask), in order;
-   a mask of the wrong length or selecting no feature is an error *)
-Theorem C15_mask_selects : forall (T : Type) d (mask : option (list bool)) (draw : nat -> list T) cpl,
-  init_cuts d mask draw = Some cpl ->
-  used_features d mask = Some (map fst cpl) /\
+(* drift detector: the regenerated definitions are convertible with the golden copies of Proofs/DouglasGen.v
+   (what douglas.py said when the proofs were written), for every number system *)
+Theorem C15_regenerated_rules_are_documented : forall (T : Type) (o : NumOps T),
+  (forall temp x cuts, gen_leaf_binning o temp x cuts = golden_leaf_binning o temp x cuts) /\
+  (forall a b, gen_merge_leaf o a b = golden_merge_leaf o a b) /\
+  (forall temp cpl K S x, gen_infer_row o temp cpl K S x = golden_infer_row o temp cpl K S x) /\
+  (forall temp cpl K S x, gen_infer_state o temp cpl K S x = golden_infer_state o temp cpl K S x) /\
+  (forall d n_cuts K mask (draw : nat -> list T), gen_init_params d n_cuts K mask draw = golden_init_params d n_cuts K mask draw) /\
+  (forall nrows ncols X cpl, gen_find_active_points o nrows ncols X cpl = golden_find_active_points o nrows ncols X cpl).
+Proof. intros T o. repeat split; intros; reflexivity. Qed.
+
+(* the regenerated definitions compute exactly what the executable model computes (all number systems) *)
+Theorem C15_regenerated_equals_model : forall (T : Type) (o : NumOps T),
+  (forall temp x cuts, gen_leaf_binning o temp x cuts = (bins o temp x cuts, argsort o cuts)) /\
+  (forall temp x cuts, gen_leaf_binning_logits o temp x cuts = bin_logits o x cuts) /\
+  (forall a b, gen_merge_leaf o a b = merge o a b) /\
+  (forall temp cpl K S x, gen_infer_row o temp cpl K S x = infer_row o temp cpl K S x) /\
+  (forall temp cpl K S x, gen_infer_state o temp cpl K S x =
+     option_map (fun lf => (lf, map (fun fc => argsort o (snd fc)) cpl, all_bins o temp cpl x)) (leaf o temp cpl x)) /\
+  (forall d n_cuts K mask (draw : nat -> list T), gen_init_params d n_cuts K mask draw =
+     option_map (fun cpl => (cpl, n_cuts, (num_leaf n_cuts cpl, K))) (init_cuts d mask draw)) /\
+  (forall nrows ncols X cpl, gen_find_active_points o nrows ncols X cpl = find_active_points o nrows ncols X cpl).
+Proof.
+  intros T o. exact (conj (gen_leaf_binning_eq o) (conj (gen_leaf_binning_logits_eq o) (conj (gen_merge_leaf_eq o)
+    (conj (gen_infer_row_eq o) (conj (gen_infer_state_eq o) (conj (@gen_init_params_eq T) (gen_find_active_points_eq o))))))).
+Qed.
+
+(* _init_params: every draw has n_cuts entries, leaf_scores_ has (n_cuts+1)^(number of used features) rows and
+   n_clusters columns, cut points are given exactly to the features selected by the mask (all of them without a
+   mask), in order; a mask of the wrong length or without any true entry is rejected *)
+Theorem C15_mask_selects : forall (T : Type) d n_cuts K (mask : option (list bool)) (draw : nat -> list T) cpl sz shape,
+  gen_init_params d n_cuts K mask draw = Some (cpl, sz, shape) -> (forall j, length (draw j) = n_cuts) ->
+  sz = n_cuts /\ shape = ((S n_cuts ^ n_used d mask)%nat, K) /\ length cpl = n_used d mask /\
+  List.Forall (fun fc => length (snd fc) = n_cuts) cpl /\
   match mask with
   | None => map fst cpl = seq 0 d
   | Some m => (length m = d /\ forall f, In f (map fst cpl) <-> (f < d)%nat /\ nth f m false = true) /\ cpl <> []
   end.
-Proof.
-  intros T d mask draw cpl H. pose proof (init_cuts_features d mask draw cpl H) as Hu. split; [exact Hu|].
-  destruct mask as [m|]; [| cbn in Hu; congruence]. split; [exact (used_features_mask d m _ Hu)|].
-  intros E. subst cpl. exact (used_features_nonempty d m _ Hu eq_refl).
-Qed.
+Proof. exact g_init_params. Qed.
+Theorem C15_mask_rejected : forall (T : Type) d n_cuts K (m : list bool) (draw : nat -> list T),
+  gen_init_params d n_cuts K (Some m) draw = None <-> length m <> d \/ (forall b, In b m -> b = false).
+Proof. exact g_init_params_rejects. Qed.
 
 (* predictions do not depend on the columns excluded by the mask: for every number system, every shape,
    every parameter value (whatever training did to cut points and leaf scores) and every row *)
 Theorem C15_masked_feature_inert : forall (T : Type) (o : NumOps T) d (mask : list bool) (cpl : list (nat * list T))
-    temp K S (X X' : nat -> nat -> T) i,
+    temp K S (x x' : nat -> T),
   used_features d (Some mask) = Some (map fst cpl) ->
-  (forall f, (f < d)%nat -> nth f mask false = true -> X i f = X' i f) ->
-  infer o temp cpl K S X i = infer o temp cpl K S X' i.
-Proof. exact @masked_feature_inert. Qed.
+  (forall f, (f < d)%nat -> nth f mask false = true -> x f = x' f) ->
+  gen_infer_row o temp cpl K S x = gen_infer_row o temp cpl K S x'.
+Proof. exact g_masked_feature_inert. Qed.
 
-(* (n_cuts+1)^(number of used features) leaves: rows of leaf_scores_ and length of the merged leaf vector;
-   no used feature = no prediction (reduce of an empty sequence) *)
-Theorem C15_leaf_count : forall (T : Type) (o : NumOps T) d mask (draw : nat -> list T) n_cuts cpl temp x,
-  init_cuts d mask draw = Some cpl -> (forall j, length (draw j) = n_cuts) ->
-  length cpl = n_used d mask /\ num_leaf n_cuts cpl = (S n_cuts ^ n_used d mask)%nat /\
-  (forall lf, leaf o temp cpl x = Some lf -> length lf = (S n_cuts ^ n_used d mask)%nat) /\
-  (leaf o temp cpl x = None <-> n_used d mask = 0%nat).
-Proof. exact @leaf_count. Qed.
+(* (n_cuts+1)^(number of used features) leaves: the retained leaf vector of _infer is as long as leaf_scores_ has
+   rows; one binning and one order per used feature; no used feature = no prediction *)
+Theorem C15_leaf_count : forall (T : Type) (o : NumOps T) d mask (draw : nat -> list T) n_cuts K cpl sz shape temp S x,
+  gen_init_params d n_cuts K mask draw = Some (cpl, sz, shape) -> (forall j, length (draw j) = n_cuts) ->
+  match gen_infer_state o temp cpl K S x with
+  | Some (lf, orders, binnings) => length lf = fst shape /\ length binnings = n_used d mask /\ length orders = n_used d mask
+  | None => n_used d mask = 0%nat
+  end.
+Proof. exact g_leaf_count. Qed.
 
-(* the model's sort is a sort and `order` is consistent with it (cut points in any order, duplicates allowed) *)
-Theorem C15_sorted_cuts : forall cuts : list R,
-  Permutation (sort_cuts Rops cuts) cuts /\ StronglySorted Rle (sort_cuts Rops cuts) /\
-  map snd (argsort_pairs Rops cuts) = sort_cuts Rops cuts.
-Proof. intros cuts. exact (conj (sort_cuts_perm cuts) (conj (sort_cuts_sorted cuts) (argsort_pairs_sorted cuts))). Qed.
+(* cut_points[order] is the sorted permutation of the cut points (any order, duplicates allowed) *)
+Theorem C15_sorted_cuts : forall temp x (cuts : list R),
+  let s := map (fun i => nth i cuts 0) (gorder temp x cuts) in Permutation s cuts /\ StronglySorted Rle s.
+Proof. exact g_sorted_cuts. Qed.
 
 (* memberships of one feature: n_cuts+1 positive numbers summing to one, for every temperature > 0
    (temperature 0 is excluded by parameter validation; Coq's x/0 = 0 would make the statement true but meaningless) *)
 Theorem C15_bins_simplex : forall (temp x : R) (cuts : list R), 0 < temp ->
-  length (bins Rops temp x cuts) = S (length cuts) /\
-  List.Forall (fun v => 0 < v) (bins Rops temp x cuts) /\ lsumR (bins Rops temp x cuts) = 1.
-Proof. intros temp x cuts _. exact (bins_simplex temp x cuts). Qed.
+  length (gbins temp x cuts) = S (length cuts) /\
+  List.Forall (fun v => 0 < v) (gbins temp x cuts) /\ lsumR (gbins temp x cuts) = 1.
+Proof. intros temp x cuts _. exact (g_bins_simplex temp x cuts). Qed.
 
-(* Kronecker product of probability vectors is a probability vector (induction over the features), hence
-   the leaf memberships of every sample *)
-Theorem C15_merge_is_simplex : forall (bs : list (list R)) lf,
-  List.Forall prob_vec bs -> leaf_of_bins Rops bs = Some lf -> prob_vec lf.
-Proof. exact merge_is_simplex. Qed.
-Theorem C15_leaf_simplex : forall temp cpl x lf, 0 < temp -> leaf Rops temp cpl x = Some lf -> prob_vec lf.
-Proof. intros temp cpl x lf _. exact (leaf_simplex temp cpl x lf). Qed.
+(* _merge_leaf is the row-major Kronecker product (entry j*len(b)+k = a_j b_k) and maps probability vectors to a
+   probability vector; hence (induction over the features in Proofs/Douglas.v) the leaf memberships of every sample *)
+Theorem C15_merge_is_simplex : forall a b : list R, prob_vec a -> prob_vec b -> prob_vec (gen_merge_leaf Rops a b).
+Proof. exact g_merge_simplex. Qed.
+Theorem C15_merge_is_kronecker : forall (a b : list R) j k, (j < length a)%nat -> (k < length b)%nat ->
+  length (gen_merge_leaf Rops a b) = (length a * length b)%nat /\
+  nth (j * length b + k) (gen_merge_leaf Rops a b) 0 = nth j a 0 * nth k b 0.
+Proof. exact g_merge_kronecker. Qed.
+Theorem C15_leaf_simplex : forall temp cpl x lf, 0 < temp -> gleaf temp cpl x = Some lf -> prob_vec lf.
+Proof. intros temp cpl x lf _. exact (g_leaf_simplex temp cpl x lf). Qed.
 
 (* for every list of cut points (sorted or not, duplicates allowed) and every x different from all cuts the
    largest bin logit — and the largest membership — is attained exactly at index #{c | c < x} *)
 Theorem C15_argmax_bin_is_count_below : forall (cuts : list R) (x : R), (forall c, In c cuts -> c <> x) ->
-  length (bin_logits Rops x cuts) = S (length cuts) /\ (count_below x cuts <= length cuts)%nat /\
+  length (glogits x cuts) = S (length cuts) /\ (count_below x cuts <= length cuts)%nat /\
   (forall j, (j <= length cuts)%nat -> j <> count_below x cuts ->
-     nth j (bin_logits Rops x cuts) 0 < nth (count_below x cuts) (bin_logits Rops x cuts) 0) /\
+     nth j (glogits x cuts) 0 < nth (count_below x cuts) (glogits x cuts) 0) /\
   (forall temp, 0 < temp -> forall j, (j <= length cuts)%nat -> j <> count_below x cuts ->
-     nth j (bins Rops temp x cuts) 0 < nth (count_below x cuts) (bins Rops temp x cuts) 0).
-Proof.
-  intros cuts x H. destruct (argmax_logit cuts x H) as (A & B & C).
-  exact (conj A (conj B (conj C (fun temp HT => argmax_membership temp cuts x HT H)))).
-Qed.
+     nth j (gbins temp x cuts) 0 < nth (count_below x cuts) (gbins temp x cuts) 0).
+Proof. exact g_argmax. Qed.
 
 (* with g <= distance from x to every cut point (e.g. the distance to the nearest one):
    membership of bin #{c < x}  >=  1 / (1 + n_cuts exp(-g/T))  >=  1 - n_cuts T / g *)
 Theorem C15_membership_bound : forall (cuts : list R) (x temp g : R), 0 < temp -> 0 < g ->
   (forall c, In c cuts -> g <= Rabs (x - c)) ->
-  1 / (1 + INR (length cuts) * exp (- g / temp)) <= nth (count_below x cuts) (bins Rops temp x cuts) 0 /\
-  1 - INR (length cuts) * (temp / g) <= nth (count_below x cuts) (bins Rops temp x cuts) 0 <= 1.
-Proof. intros cuts x temp g HT Hg H. exact (conj (membership_bound cuts x temp g HT Hg H) (membership_rate cuts x temp g HT Hg H)). Qed.
+  1 / (1 + INR (length cuts) * exp (- g / temp)) <= nth (count_below x cuts) (gbins temp x cuts) 0 /\
+  1 - INR (length cuts) * (temp / g) <= nth (count_below x cuts) (gbins temp x cuts) 0 <= 1.
+Proof. exact g_membership_bound. Qed.
 
 (* the limit itself: as T -> 0+ the membership of bin #{c < x} tends to 1 (the soft binning becomes the hard one) *)
 Theorem C15_membership_limit : forall (cuts : list R) (x : R), (forall c, In c cuts -> c <> x) ->
-  filterlim (fun temp : R => nth (count_below x cuts) (bins Rops temp x cuts) 0) (at_right 0) (locally 1).
-Proof. exact membership_limit. Qed.
+  filterlim (fun temp : R => nth (count_below x cuts) (gbins temp x cuts) 0) (at_right 0) (locally 1).
+Proof. exact g_membership_limit. Qed.
 
 (* a sample's cell is given, feature by feature, by how many cut points lie below its value *)
 Theorem C15_cell_index_counts : forall cpl (x x' : nat -> R),
@@ -99,38 +134,42 @@ Proof. exact cell_index_counts. Qed.
    and two points of one cell predict the same up to exp(8 M m n exp(-g/T)) *)
 Theorem C15_cell_prediction : forall temp g M n cpl K (S : nat -> nat -> R) x, 0 < temp -> 0 < g -> cpl <> [] ->
   in_cell_gap g n cpl x ->
-  (forall lf, leaf Rops temp cpl x = Some lf -> forall l k, (l < length lf)%nat -> (k < K)%nat -> Rabs (S l k) <= M) ->
-  exists p, infer_row Rops temp cpl K S x = Some p /\
+  (forall l k, (l < nleaves cpl)%nat -> (k < K)%nat -> Rabs (S l k) <= M) ->
+  exists p, gen_infer_row Rops temp cpl K S x = Some p /\
     forall k, (k < K)%nat ->
       let e := exp (4 * M * (INR (length cpl) * INR n * exp (- g / temp))) in
       let c := softmax_row Rops K (S (cell_index cpl x)) k in
       p k <= e * c /\ c <= e * p k.
-Proof. exact cell_prediction. Qed.
+Proof. exact g_cell_prediction. Qed.
 Theorem C15_cell_constant : forall temp g M n cpl K (S : nat -> nat -> R) x x', 0 < temp -> 0 < g -> cpl <> [] ->
   in_cell_gap g n cpl x -> in_cell_gap g n cpl x' ->
   map (fun fc => count_below (x (fst fc)) (snd fc)) cpl = map (fun fc => count_below (x' (fst fc)) (snd fc)) cpl ->
   (forall l k, (l < nleaves cpl)%nat -> (k < K)%nat -> Rabs (S l k) <= M) ->
-  exists p p', infer_row Rops temp cpl K S x = Some p /\ infer_row Rops temp cpl K S x' = Some p' /\
+  exists p p', gen_infer_row Rops temp cpl K S x = Some p /\ gen_infer_row Rops temp cpl K S x' = Some p' /\
     forall k, (k < K)%nat -> p k <= exp (8 * M * (INR (length cpl) * INR n * exp (- g / temp))) * p' k.
-Proof. exact cell_constant. Qed.
+Proof. exact g_cell_constant. Qed.
 
 (* the limit statement of the property: as the temperature goes to zero the prediction of every sample not
    lying on a cut point converges to softmax(leaf_scores_[cell]), a value that depends on the cell only *)
 Theorem C15_prediction_limit : forall cpl K (S : nat -> nat -> R) x k, cpl <> [] -> (k < K)%nat ->
   (forall fc, In fc cpl -> forall c, In c (snd fc) -> c <> x (fst fc)) ->
-  filterlim (pred_at cpl K S x k) (at_right 0) (locally (softmax_row Rops K (S (cell_index cpl x)) k)).
-Proof. exact prediction_limit. Qed.
+  filterlim (gpred_at cpl K S x k) (at_right 0) (locally (softmax_row Rops K (S (cell_index cpl x)) k)).
+Proof. exact g_prediction_limit. Qed.
 
-(* find_active_points (well-formed data: at least one row, every used feature is a column): returns, in the
-   order of the parameter list, exactly the used features having a cut point c with X[i,f] < c < X[j,f] for
-   some rows i, j — i.e. min(x_f) < c < max(x_f) *)
-Theorem C15_active_points_spec : forall nrows ncols (X : nat -> nat -> R) cpl, (0 < nrows)%nat -> (0 < ncols)%nat ->
-  NoDup (map fst cpl) -> (forall fc, In fc cpl -> (fst fc < ncols)%nat) ->
-  exists l, find_active_points Rops nrows ncols X cpl = FapOk l /\
-    l = map fst (filter (active_feature Rops nrows X) cpl) /\
+(* find_active_points (at least one row, every used feature is a column): returns, in the order of the parameter
+   list, exactly the used features having a cut point c with X[i,f] < c < X[j,f] for some rows i, j — i.e.
+   min(x_f) < c < max(x_f); data lacking a used column is a ValueError, never an IndexError *)
+Theorem C15_active_points_spec : forall nrows ncols (X : nat -> nat -> R) cpl, (0 < nrows)%nat -> cpl <> [] ->
+  (forall fc, In fc cpl -> (fst fc < ncols)%nat) ->
+  exists l, gen_find_active_points Rops nrows ncols X cpl = FapOk l /\
+    (exists keep, l = map fst (filter keep cpl)) /\
     (forall f, In f l <-> exists cuts, In (f, cuts) cpl /\
         exists c, In c cuts /\ (exists i, (i < nrows)%nat /\ X i f < c) /\ (exists j, (j < nrows)%nat /\ c < X j f)).
-Proof. exact active_points_spec. Qed.
+Proof. exact g_active_points_spec. Qed.
+Theorem C15_active_points_narrow_data : forall nrows ncols (X : nat -> nat -> R) cpl,
+  ((exists fc, In fc cpl /\ (ncols <= fst fc)%nat) -> gen_find_active_points Rops nrows ncols X cpl = FapValueError) /\
+  gen_find_active_points Rops nrows ncols X cpl <> FapIndexError.
+Proof. exact g_active_points_narrow. Qed.
 
 (* non-vacuity: unsorted cut points [2; 0; 1] on feature 0 of a masked 3-feature model, the value 3/2 lies in
    bin 2 at distance 1/2 from every cut; the hypotheses of the theorems above are met *)
@@ -138,10 +177,12 @@ Example C15_nonvacuous :
   let cpl := [(0%nat, [2; 0; 1]); (2%nat, [1])] in
   let x := fun f : nat => match f with 0%nat => 3 / 2 | _ => 0 end in
   used_features 3 (Some [true; false; true]) = Some (map fst cpl) /\
+  (exists sz shape, gen_init_params 3 3 2 (Some [true; false; true]) (fun j => match j with 0%nat => [2; 0; 1] | _ => [1; 1; 1] end)
+                    = Some ([(0%nat, [2; 0; 1]); (2%nat, [1; 1; 1])], sz, shape)) /\
   count_below (x 0%nat) [2; 0; 1] = 2%nat /\
   in_cell_gap (1 / 2) 3 cpl x /\ cell_index cpl x = 4%nat /\ cpl <> [] /\ NoDup (map fst cpl).
 Proof.
-  cbv zeta. split; [reflexivity|]. split.
+  cbv zeta. split; [reflexivity|]. split; [eexists; eexists; reflexivity|]. split.
   { cbn [count_below]. repeat (destruct (Rlt_dec _ _); try lra); reflexivity. }
   split.
   { intros fc [<-|[<-|[]]]; cbn [fst snd length]; (split; [repeat constructor|]); intros c Hc; simpl in Hc;
@@ -151,12 +192,16 @@ Proof.
   split; [discriminate|]. cbn. repeat constructor; simpl; intuition discriminate.
 Qed.
 
+Print Assumptions C15_regenerated_rules_are_documented.
+Print Assumptions C15_regenerated_equals_model.
 Print Assumptions C15_mask_selects.
+Print Assumptions C15_mask_rejected.
 Print Assumptions C15_masked_feature_inert.
 Print Assumptions C15_leaf_count.
 Print Assumptions C15_sorted_cuts.
 Print Assumptions C15_bins_simplex.
 Print Assumptions C15_merge_is_simplex.
+Print Assumptions C15_merge_is_kronecker.
 Print Assumptions C15_leaf_simplex.
 Print Assumptions C15_argmax_bin_is_count_below.
 Print Assumptions C15_membership_bound.
@@ -166,3 +211,4 @@ Print Assumptions C15_cell_prediction.
 Print Assumptions C15_cell_constant.
 Print Assumptions C15_prediction_limit.
 Print Assumptions C15_active_points_spec.
+Print Assumptions C15_active_points_narrow_data.
